@@ -37,6 +37,21 @@ def deliveredOf (out : String) : List String :=
 
 def isErr (out : String) : Bool := (out.splitOn "|err ").length > 1
 
+/-- walk the frames of a stream up to the first bad length prefix; returns the complete frames before it and
+whether at least 5 bytes (the prefix and one more) are present from there -/
+def scanBad (max : Nat) : Bytes → List Bytes × Bool :=
+  let rec go (fuel : Nat) (buf : Bytes) (acc : List Bytes) : List Bytes × Bool :=
+    match fuel with
+    | 0 => (acc.reverse, false)
+    | fuel + 1 =>
+      if buf.length ≤ 4 then (acc.reverse, false)
+      else
+        let len := leVal (buf.take 4)
+        if len < 4 || len > max then (acc.reverse, true)
+        else if buf.length - 4 < len then (acc.reverse, false)
+        else go fuel (buf.drop (4 + len)) ((buf.drop 4).take len :: acc)
+  fun b => go b.length b []
+
 def stepFrames (max : Nat) (chunks : List Bytes) (impl : String) : String × Verdict :=
   let m := runReads max [] chunks []
   if impl.startsWith "panic" then (m, .fail) else
@@ -75,7 +90,16 @@ def step (op impl : String) : String × Verdict :=
       | .ok (ms, _) =>
         let m := showFrames (ms.map id) ++ "|late=0|end=idle"
         if impl == m then (m, .hold) else (m ++ " [property: every fully received frame is delivered, in order, once]", .fail)
-      | .error _ => (impl, .unknown)
+      | .error _ =>
+        -- a bad length prefix somewhere in the stream: the frames before it (`good`), and whether the prefix plus
+        -- at least one more byte arrived (then decodeData has looked at it and the peer must be disconnected)
+        let (good, seen) := scanBad max chunks.flatten
+        let delivered := deliveredOf impl
+        let isPrefix := delivered == (good.map hexOf).take delivered.length
+        let m := "<some prefix of " ++ showFrames good ++ ">|late=0|end=err ErrDisconnectInvalidMessageLength"
+        if !seen then (impl, .unknown)
+        else if isPrefix && (impl.splitOn "|end=err ErrDisconnectInvalidMessageLength").length > 1 then (impl, .hold)
+        else (m ++ " [property: a bad length prefix must disconnect the peer]", .fail)
     | _, _ => ("bad-op", .unknown)
   | ["conv", h] =>
     match parseBytes h with
